@@ -1,12 +1,11 @@
 (* C13 findings (never gates a check).
 
-   Part 1: REGRESSION statements about the OLD behaviour of the two defects repaired by the
-   fix commits 184d471 and e57b511.  They are stated over the list helpers only ([gather],
+   REGRESSION statements about the OLD behaviour of the three defects repaired by the fix
+   commits 184d471, e57b511 and the follow-up ResampleGenerator fix.  They are stated over the list helpers only ([gather],
    [select], [single_or]) and over the old rule written out here, so they do not depend on
    the current model of the repaired code.
 
-   Part 2: refutation witness of the still OPEN finding resample-stale-size-indirect on the
-   faithful model (stops compiling when the code, and with it the model, is repaired). *)
+   No finding of C13 is open any more; nothing here refers to [sample] / the current model. *)
 From Coq Require Import List Arith ZArith Bool Lia.
 Import ListNotations.
 From ND.model Require Import Batch GenComb.
@@ -29,6 +28,13 @@ Proof.
     rewrite E. reflexivity.
 Qed.
 
+Lemma gather_none_at idx xs i : In i idx -> length xs <= i -> gather idx xs = None.
+Proof.
+  intros Hin Hle. unfold gather.
+  destruct (forallb (fun i0 => Nat.ltb i0 (length xs)) idx) eqn:E; [|reflexivity].
+  rewrite forallb_forall in E. specialize (E i Hin). apply Nat.ltb_lt in E. lia.
+Qed.
+
 (* ---- Part 1b: the old default of TransformGenerator, (lambda x: x)( *xs), accepted exactly one
    vector; the repaired default returns what it is given for any number of dimensions. *)
 Definition old_transform_default (cs : list (list Z)) : option out :=
@@ -41,19 +47,30 @@ Proof.
   split; [reflexivity|]. intros [|a [|b l]]; reflexivity.
 Qed.
 
-(* ---- Part 2 (OPEN): ResampleGenerator over a combinator ABOVE a filter.  StaticGenerator keeps the
-   construction-time .size (3) of the filter below it although 2 rows were cached; randperm(3)
-   answers with a genuine permutation of range(3); the real call raises IndexError. *)
-Theorem C13_resample_indirect_refuted :
-  exists (draw : nat -> nat -> list (list Z)) (mask : nat -> nat -> list bool) (rperm : nat -> nat -> list nat) (g : gen),
-    g = Static (Filter (Leaf 0 3 FT) 0 None true) /\
-    length (rperm 0 0) = size_at draw mask rperm (fun _ _ => []) h_tvec h_tmulti g 1 /\
-    NoDup (rperm 0 0) /\
-    sample draw mask rperm (fun _ _ => []) h_tvec h_tmulti g 0 = Some (FT, [[10; 12]]%Z) /\
-    sample draw mask rperm (fun _ _ => []) h_tvec h_tmulti (Resample g 0 None false) 0 = None.
+(* ---- Part 1c: the residual repaired by the follow-up fix.  A combinator ABOVE a filter (here a
+   StaticGenerator) keeps the .size computed at construction (3) although the filter below
+   cached 2 rows; the old ResampleGenerator asked randperm for that .size.  The repaired one asks
+   for the number of rows of the draw itself, for which every possible answer is in range
+   (last conjunct of C13_old_resample_stale_regression). *)
+Definition old_construction_size : nat := length [10; 11; 12]%Z.       (* what Static(Filter(leaf of 3)).size said *)
+
+Theorem C13_old_resample_indirect_regression :
+  old_construction_size = 3 /\ length kept = 2 /\
+  (forall perm, length perm = old_construction_size -> NoDup perm -> Forall (fun i => i < old_construction_size) perm ->
+                gather perm kept = None) /\
+  (forall perm, length perm = length kept -> Forall (fun i => i < length kept) perm -> gather perm kept <> None).
 Proof.
-  exists (fun _ _ => [[10; 11; 12]]%Z), (fun _ _ => [true; false; true]), (fun _ _ => [2; 0; 1]),
-         (Static (Filter (Leaf 0 3 FT) 0 None true)).
-  repeat split; try reflexivity.
-  repeat constructor; cbn; intuition discriminate.
+  repeat split.
+  - (* any permutation of range(3) contains the index 2, which is outside a 2-row draw *)
+    intros perm Hl Hnd Hlt.
+    destruct (in_dec Nat.eq_dec 2 perm) as [H2|H2]; [apply (gather_none_at perm kept 2 H2); cbn; lia|].
+    exfalso.
+    assert (Hincl : incl perm [0; 1]).
+    { intros i Hi. rewrite Forall_forall in Hlt. specialize (Hlt i Hi). unfold old_construction_size in Hlt. cbn in Hlt.
+      destruct i as [|[|[|i]]]; [left; reflexivity|right; left; reflexivity|contradiction|lia]. }
+    pose proof (NoDup_incl_length Hnd Hincl) as Hlen. rewrite Hl in Hlen. cbn in Hlen. lia.
+  - intros perm _ Hlt. unfold gather.
+    assert (E : forallb (fun i => Nat.ltb i (length kept)) perm = true).
+    { apply forallb_forall. intros i Hi. apply Nat.ltb_lt. rewrite Forall_forall in Hlt. apply Hlt. exact Hi. }
+    rewrite E. discriminate.
 Qed.
